@@ -422,7 +422,12 @@ def q_step_vs_run(env, name=None):
         "TOALTSTACK FROMALTSTACK EQUAL": lambda: [opb("OP_TOALTSTACK"), opb("OP_DUP"), opb("OP_FROMALTSTACK"), opb("OP_EQUAL")],
         "DROP DROP DROP": lambda: [opb("OP_DROP"), opb("OP_DROP"), opb("OP_DROP")],
         "(empty)": lambda: [],
+        # OP_RETURN ends execution: nothing after it may run (Bitcoin SV); the stacks stay as they were when it executed
+        "RETURN 1ADD": lambda: [opb("OP_RETURN"), opb("OP_1ADD")],
+        "IF RETURN ENDIF DROP": lambda: [ifb("OP_IF", ["OP_RETURN"], None), opb("OP_DROP")],
     }
+    # expected final main stack as a function of the initial items, for the scripts with a fixed reference outcome
+    fixed_outcome = {"RETURN 1ADD": lambda items, tr: [items[0], items[1]], "IF RETURN ENDIF DROP": lambda items, tr: [items[0]] if tr else []}
     models = [(re.compile(r"(^|::)_print$|^std::io::_print$"), lambda ex, a, callee, canon: UNIT), (re.compile(r"^Arguments::from_str$"), lambda ex, a, callee, canon: Opaque("fmt"))] + MODELS
 
     def native(scr_bytes):
@@ -502,21 +507,66 @@ def q_step_vs_run(env, name=None):
                         qr.queries += 1
                         if any(o[0] != "equal" for o in outs):
                             bad = f"final {nm} differs between run and stepping"
+            goal = z3.BoolVal(True)
+            if bad is None and label in fixed_outcome and ra.variant == "Ok":
+                sa = c.a.get().f[P.structs["Interpreter"].index("state")]
+                got = sa.f[P.structs["State"].index("stack")].f
+                for tr in (True, False):
+                    want = fixed_outcome[label](c.items, tr)
+                    cond = OS.truthy(c.items[-1]) if tr else z3.Not(OS.truthy(c.items[-1]))
+                    if label == "RETURN 1ADD" and not tr:
+                        continue
+                    if label == "RETURN 1ADD":
+                        cond = z3.BoolVal(True)
+                    sx = z3.Solver()
+                    for cnd in r.pc:
+                        sx.add(cnd)
+                    sx.add(cond)
+                    qr.queries += 1
+                    if sx.check() != z3.sat:
+                        continue
+                    same = len(got) == len(want)
+                    neq = []
+                    if same:
+                        for g, w in zip(got, want):
+                            gi = ex.seq_items(g.s)
+                            if gi is None or len(gi) != len(w):
+                                same = False
+                                break
+                            neq += [a_ != b_ for a_, b_ in zip(gi, w)]
+                    if same and neq:
+                        sx.add(z3.Or(*neq))
+                        same = sx.check() != z3.sat
+                    if not same:
+                        bad, goal = "elements after an executed OP_RETURN still run (OP_RETURN must end the script with the stacks as they are)", cond
+                        break
             if bad is None or reported:
                 continue
             s = z3.Solver()
             for cnd in r.pc:
                 s.add(cnd)
+            s.add(goal)
             if s.check() != z3.sat:
                 continue
             m = s.model()
             items = [bytes(bv_val(m, b) for b in it) for it in c.items]
             tail = {"ADD": "93", "DUP ADD": "7693", "SWAP SUB 1ADD": "7c948b", "VERIFY 1": "6951", "IF 1ADD ELSE 1SUB ENDIF DUP": "638b678c6876", "NOTIF DROP ENDIF": "647568", "IF IF 2 ENDIF ENDIF": "6363526868",
-                    "TOALTSTACK FROMALTSTACK EQUAL": "6b766c87", "DROP DROP DROP": "757575", "(empty)": ""}[label]
+                    "TOALTSTACK FROMALTSTACK EQUAL": "6b766c87", "DROP DROP DROP": "757575", "(empty)": "", "RETURN 1ADD": "6a8b", "IF RETURN ENDIF DROP": "636a6875"}[label]
             scr = b"".join(bytes([len(i)]) + i for i in items) + bytes.fromhex(tail)
             req, nat = native(scr)
             item = {"message": f"script [{label}] on stack {[i.hex() for i in items]}: {bad}", "request": req, "op_index": 0, "expected": {"same": True, "stepping_ends": True}, "native": nat}
             reported = True
+            if label in fixed_outcome:
+                tv = any(b != 0 for b in items[-1][:-1]) or (len(items[-1]) > 0 and items[-1][-1] not in (0, 0x80))
+                want_stack = [bytes(w).hex() for w in fixed_outcome[label](items, tv)]
+                req2 = {"tx": {"version": 1, "locktime": 0, "inputs": [], "outputs": []}, "ops": [{"op": "interp", "script": scr.hex()}]}
+                nat2 = {p_: C.Native.run(req2, p_)[0] for p_ in ("debug", "release")}
+                item.update({"request": req2, "expected": {"stack": want_stack}, "native": nat2})
+                if any(v.get("ok", {}).get("stack") != want_stack for v in nat2.values()):
+                    qr.violations.append(item)
+                else:
+                    qr.undecided.append(item["message"] + " — not reproduced natively: " + json.dumps(nat2)[:200])
+                continue
             if any(v.get("ok") != {"same": True, "stepping_ends": True} for v in nat.values()):
                 qr.violations.append(item)
             else:
